@@ -448,12 +448,24 @@ func main() {
 	core.ParseFlags()
 	node.Quiet()
 	node.DropEngineGoroutines() // see mc/node/tasks.go
+	if os.Getenv("C01_LOCAL_PROBE") != "" {
+		lProbe()
+		return
+	}
 	maxLen := 2
 	if core.Thorough() {
 		maxLen = 3
 	}
 	cases := enumerate(maxLen)
 	if core.Opt.Replay != "" {
+		var lc lcase
+		if err := core.LoadReplay(core.Opt.Replay, &lc); err == nil && len(lc.Hist) > 0 {
+			// a case of phase L (node-local state, local.go)
+			if replayLocal(lc) > 0 {
+				os.Exit(1)
+			}
+			return
+		}
 		var c caseT
 		if err := core.LoadReplay(core.Opt.Replay, &c); err != nil {
 			fmt.Println(err)
@@ -475,7 +487,7 @@ func main() {
 	if i, n, ok := core.IsWorker(); ok {
 		r := core.NewResult(prop, "exploration")
 		setup()
-		for k := i; k < len(cases); k += n {
+		for k := i; k < len(cases) && os.Getenv("C01_ONLY_LOCAL") == ""; k += n {
 			core.Journal(cases[k].String())
 			// the fresh-validator variant for every list of length <= 1 (quick) / <= 2 (thorough)
 			deep := len(cases[k].List) <= maxLen-1
@@ -493,15 +505,24 @@ func main() {
 		for i, n := range vorder.Loops {
 			r.Add(fmt.Sprintf("controlled_map_loops_with_%d_keys", i), n)
 		}
+		// phase L: node-local state (local.go). It changes process-global parameters (term length, the
+		// harness clock), so it runs after the first phase's world is gone.
+		if r.Exhaustive && os.Getenv("C01_SKIP_LOCAL") == "" {
+			runLocalShard(i, n, r)
+		}
 		core.WorkerDone(r)
 	}
 	r := core.NewResult(prop, "exploration")
 	r.Rule = fmt.Sprintf("all ordered lists of length <= %d over a %d-transaction menu (all 11 tx types) on the prefix state; per list: honest miner block, %d discard candidates x every insertion position, every block gas limit at which the pool runs dry at one of the (sub-)transactions, 6 controlled map iteration orders on the miner and on restarted validators, restarted validator, fresh validator with different prior history (lists of length <= %d), redo of the change logs; a distinct outcome is (packaged count, log count, gas used)", maxLen, len(chainkit.Menu), len(chainkit.Discards), maxLen-1)
 	r.Assume = []string{"single deputy; one prefix state (funded accounts, 7 contracts, a candidate, an asset, a multi-signature account)", "map iteration order: every map loop of the instrumented packages (source overlay, pass maprange) runs under 6 controlled orders = all n! orders for maps of <= 3 keys, sorted / reversed / 3 rotations / reversed+rotated above; loops over maps in packages outside the overlay (store internals other than cblock/vote/chain_database, common/*) keep the runtime's order"}
 	r.Extra["cases"] = len(cases)
+	r.Rule += " || " + lRuleText()
+	r.Assume = append(r.Assume, "phase L: four genesis deputies (a block is stable with 3 signatures, so a node's own signature never decides stability: nodes run with an observer key and take the key of the deputy in turn only to mine); a node that does not know the deputies of a height because the term's snapshot block is not stable on it neither mines nor verifies there (protocol precondition, counted); what an honest miner picks from its pool is its choice: miner variants are compared when they packaged the reference list; the store's background writer is drained after every event (its timing is C08's subject)")
 	core.RunShards(r, core.Opt.Workers, nil, core.Opt.Budget+3*time.Minute, func(i int, tail, journal string) {
 		r.Violate(prop+"/worker-died/"+firstWords(panicLine(tail)), fmt.Sprintf("worker %d died while running %s:\n%s", i, journal, clip(tail)), map[string]string{"case": journal})
 	})
+	compressLocalNotes(r)
+	lSelfCheck(r)
 	core.Finish(r)
 }
 
